@@ -375,41 +375,56 @@ example : isSpecialComment (s "[if IE]> x <![endif]") = true ∧ isSSI (s "#incl
       (s "<!--[if IE]> <p> x </p> <![endif]-->") (s "[if IE]> <p> x </p> <![endif]") = .ok (s "<!--[if IE]><p>x<![endif]-->") := by
   decide +kernel
 
-/-- full statement of `KeepEndTags` ("preserve all end tags"): every end tag token is written -/
-def html_keep_end_tags_full : Prop :=
-  ∀ (o : Opts) (ext : Ext) (sub : Sub) (st : St) (name data : List Char) (rest : List HTok),
-    o.keepEndTags = true → st.dropEnd = false →
-    ∃ st', step o ext sub st (.endTag name data) rest = .ok (st', endTagBytes name data)
-
-/-- **`KeepEndTags`** (partial; guard = K-C16-1): every end tag token of the input other than those of the
-    elements whose tags are dropped as a pair (`html`/`head`/`body` without `KeepDocumentTags`, `colgroup`) is written
-    (`endTagBytes`: the tag with white space before `>` removed), in place — whole document, all other options.
-    `p.st.dropEnd`: the end tag of an attribute-less empty `<script></script>`/`<style></style>`, which is removed
-    as a whole element. -/
-theorem html_keep_end_tags_partial (o : Opts) (ext : Ext) (sub : Sub) (toks : List HTok) (ps : List Piece)
+/-- **`KeepEndTags`** (full since 44fae7b; former K-C16-1): every end tag token of the input is written (`endTagBytes`:
+    the tag with white space before `>` removed), in place — unless it belongs to an html/head/body/colgroup pair that
+    is dropped as a whole, i.e. `isDroppedTag` and the start tag was not written (`docOpen`, see
+    `html_keep_end_tags_pair`).  Whole document, all other options.  `p.st.dropEnd`: the end tag of an attribute-less
+    empty `<script></script>`/`<style></style>`, which is removed as a whole element. -/
+theorem html_keep_end_tags (o : Opts) (ext : Ext) (sub : Sub) (toks : List HTok) (ps : List Piece)
     (hk : o.keepEndTags = true) (h : trace o ext sub {} toks = .ok ps) :
-    ∀ p ∈ ps, ∀ name data, p.tok = .endTag name data → isDroppedTag o name = false → p.st.dropEnd = false →
-      p.out = endTagBytes name data := by
-  intro p hp name data ht hdrop hd
+    ∀ p ∈ ps, ∀ name data, p.tok = .endTag name data → p.st.dropEnd = false →
+      (isDroppedTag o name = false ∨ p.st.docOpen.contains name = true) → p.out = endTagBytes name data := by
+  intro p hp name data ht hd hopen
   obtain ⟨st', hs⟩ := trace_step o ext sub {} toks ps h p hp
   rw [ht] at hs
-  obtain ⟨st'', hs'⟩ := end_step_written o ext sub p.st name data p.rest hd hdrop (keep_end_tags_omit o name p.rest hk)
+  obtain ⟨st'', hs'⟩ := end_step_kept o ext sub p.st name data p.rest hd hk hopen
   rw [hs'] at hs
   exact (ok_snd hs).symm
 
-/-- **K-C16-1**: `<body class=a>x</body>` with `KeepEndTags`: the start tag is written (it has an attribute), the
-    end tag is not -/
-theorem html_keep_end_tags_counterexample : ¬ html_keep_end_tags_full := by
-  intro hf
-  obtain ⟨st', h⟩ := hf { keepEndTags := true } [] none {} (s "body") (s "</body>") [] rfl rfl
-  have h2 : stepOut (step { keepEndTags := true } [] none {} (.endTag (s "body") (s "</body>")) []) =
-      some (endTagBytes (s "body") (s "</body>")) := by rw [h]; rfl
-  revert h2
-  decide +kernel
+/-- **`KeepEndTags`**, the pairs: when a start tag is written (any element, html/head/body/colgroup included), the next
+    end tag token of that name is written too — from every state, for every token stream and all other options -/
+theorem html_keep_end_tags_pair (o : Opts) (ext : Ext) (sub : Sub) (st : St) (name : List Char) (attrs : List Attr)
+    (rest : List HTok) (p : Piece) (pre : List Piece) (q : Piece) (post : List Piece) (data : List Char)
+    (hk : o.keepEndTags = true)
+    (h : trace o ext sub st (.startTag name attrs :: rest) = .ok (p :: (pre ++ q :: post)))
+    (hout : p.out ≠ []) (hpre : ∀ x ∈ pre, ∀ d, x.tok ≠ .endTag name d)
+    (hq : q.tok = .endTag name data) (hd : q.st.dropEnd = false) :
+    q.out = endTagBytes name data := by
+  obtain ⟨st', out, ps', hs, ht, e⟩ := trace_cons o ext sub st _ rest _ h
+  simp only [List.cons.injEq] at e
+  have hqs : ∃ st'', step o ext sub q.st q.tok q.rest = .ok (st'', q.out) :=
+    trace_step o ext sub st' rest ps' ht q (by rw [← e.2]; simp)
+  obtain ⟨st'', hqs⟩ := hqs
+  rw [hq] at hqs
+  have hopen : isDroppedTag o name = false ∨ q.st.docOpen.contains name = true := by
+    cases hdr : isDroppedTag o name with
+    | false => exact Or.inl rfl
+    | true =>
+      right
+      have hpo : p.out = out := by rw [e.1]
+      have hm := step_start_open o ext sub st st' name attrs rest out hk hdr hs (hpo ▸ hout)
+      rw [← e.2] at ht
+      simpa using trace_docOpen_mem o ext sub name pre st' rest q post ht hm hpre
+  obtain ⟨st3, hs'⟩ := end_step_kept o ext sub q.st name data q.rest hd hk hopen
+  rw [hs'] at hqs
+  exact (ok_snd hqs).symm
 
 example : htmlMinify { keepEndTags := true } [] none
     [.startTag (s "body") [{ name := s "class", val := s "a", data := s " class=a" }], .startTag (s "p") [],
-     .text (s "x") false, .endTag (s "p") (s "</p>"), .endTag (s "body") (s "</body>")] = .ok (s "<body class=a><p>x</p>") := by
+     .text (s "x") false, .endTag (s "p") (s "</p>"), .endTag (s "body") (s "</body>")] = .ok (s "<body class=a><p>x</p></body>") ∧
+    htmlMinify { keepEndTags := true } [] none
+    [.startTag (s "body") [], .startTag (s "p") [],
+     .text (s "x") false, .endTag (s "p") (s "</p>"), .endTag (s "body") (s "</body>")] = .ok (s "<p>x</p>") := by
   decide +kernel
 
 /-- **`KeepDocumentTags`**: every `html`, `head` and `body` end tag is written, … -/
@@ -502,35 +517,22 @@ example : writeAttr { keepDefaultAttrVals := true } [] none (s "form") []
       (AttrSt.ofAttr { name := s "method", val := s "get", data := s " method=get" }) = .ok ([], none) := by
   decide +kernel
 
-/-- do the special cases that run before the write loop leave every attribute of an `input` element in place? -/
-def inputKeeps (ext : Ext) (as : List AttrSt) : Bool :=
-  match specialAttrs ext (s "input") as with
-  | .ok as' => as'.map (·.keep) == as.map (·.keep)
-  | .error _ => true
+/-- **`KeepDefaultAttrVals`, `input`** (full since c5a4469; former K-C16-2): with the option the special case that
+    removes a default `value` (`""` for the text-like types, `on` for `radio`) is switched off — every attribute of an
+    `input` element reaches the write loop; for all other elements the special cases do not depend on the option -/
+theorem html_keep_default_input (o : Opts) (ext : Ext) (hk : o.keepDefaultAttrVals = true) :
+    (∀ as : List AttrSt, specialAttrsOpt o ext (s "input") as = .ok as) ∧
+    (∀ (o' : Opts) (tag : List Char) (as : List AttrSt), hashIs tag "input" = false →
+      specialAttrsOpt o' ext tag as = specialAttrs ext tag as) :=
+  ⟨fun as => specialAttrsOpt_input o ext as hk, fun o' tag as h => specialAttrsOpt_other o' ext tag as h⟩
 
-/-- full statement: they do (they have no access to the options, so this is what `KeepDefaultAttrVals` needs) -/
-def html_keep_default_input_full : Prop := ∀ (ext : Ext) (as : List AttrSt), inputKeeps ext as = true
-
-/-- **`KeepDefaultAttrVals`, `input`** (partial; guard = K-C16-2): outside the trigger the special case leaves the
-    attributes of `input` alone -/
-theorem html_keep_default_input_partial (ext : Ext) (as : List AttrSt) (g : inputValueTrigger as = false) :
-    inputKeeps ext as = true := by
-  unfold inputKeeps
-  split
-  · next as' h => rw [specialAttrs_input_keep ext as as' h g]; simp
-  · rfl
-
-/-- **K-C16-2**: `<input type=text value="">`: the `value` attribute is removed because `""` is the default —
-    the special case runs whatever `KeepDefaultAttrVals` says -/
-theorem html_keep_default_input_counterexample : ¬ html_keep_default_input_full := by
-  intro hf
-  have := hf [] [AttrSt.ofAttr { name := s "type", val := s "text", data := s " type=text" },
-                 AttrSt.ofAttr { name := s "value", val := [], data := s " value=\"\"" }]
-  revert this
+example : htmlMinify { keepDefaultAttrVals := true } [] none
+    [.startTag (s "input") [{ name := s "type", val := s "text", data := s " type=text" },
+                             { name := s "value", val := [], data := s " value=\"\"" }]] = .ok (s "<input type=text value>") ∧
+    htmlMinify {} [] none
+    [.startTag (s "input") [{ name := s "type", val := s "text", data := s " type=text" },
+                             { name := s "value", val := [], data := s " value=\"\"" }]] = .ok (s "<input>") := by
   decide +kernel
-
-example : inputValueTrigger [AttrSt.ofAttr { name := s "type", val := s "checkbox", data := s " type=checkbox" },
-                 AttrSt.ofAttr { name := s "value", val := [], data := s " value=\"\"" }] = false := by decide +kernel
 
 /-- **`KeepWhitespace`**, text: the collapsed text (runs of white space → one byte, references replaced) is
     written, except that (a) one leading white-space byte is dropped only if the pending-space flag is set and (b)
